@@ -9,7 +9,9 @@
     allocator of the harness against [2 * retained entries] of the model. *)
 From VF Require Import Base Iter Enc Lru LruStep Slru TwoQ Arc CacheStep Tiny WTiny TinyStep
   BaseFacts LruFacts Counts PrimFacts Tactics SlruFacts TwoQFacts ArcFacts TinyFacts WTinyFacts
-  C07Proofs C08Proofs C09Proofs C10Proofs Run C01Proofs Univ C12Proofs C02Proofs C04Proofs.
+  C07Proofs C08Proofs C09Proofs C10Proofs Run C01Proofs Univ C12Proofs C02Proofs C04Proofs
+  Heap HeapFacts HeapOps HeapRun HeapMulti HeapOwn.
+From Coq Require Import List.
 
 Theorem C04_put_conserves : forall R R' k v r,
   NoDup (keys R) -> NoDup (keys R') -> put_truth R R' k v r ->
@@ -46,6 +48,23 @@ Theorem C04_remove_and_purge :
   (forall s, retained_a (apurge s) = []) /\ (forall s, retained_w (wpurge s) = []).
 Proof. exact c04_remove_counts. Qed.
 
+(** at the level of nodes (layer H of C03): in every reachable state of RawLRU the initialised cells of the heap
+    are exactly the nodes of the retained entries, one node per entry — every key and value the cache holds lives in
+    exactly one place; C03's history theorems add that no cell is ever freed twice and that Drop after any
+    history leaves every cell free (nothing leaks) *)
+Theorem C04_heap_owned : forall h q s,
+  R h q s ->
+  exists l, entries l = items s /\ NoDup (addrs l) /\ forall a k v, holds h a k v <-> In (a, (k, v)) l.
+Proof. exact owned_exactly. Qed.
+
+(** the same for the lists of a composite cache sharing a heap: a cell holds a key and a value iff it is a node of
+    exactly one of the lists *)
+Theorem C04_heap_family_owned : forall h F,
+  fam h F [] ->
+  (forall a k v, holds h a k v <-> exists q l, In (q, l) F /\ In (a, (k, v)) l) /\
+  NoDup (flat_map (fun ql => addrs (snd ql)) F).
+Proof. intros h F Hf. split; [now apply fam_owned_exactly|eapply fam_nodes_distinct; eauto]. Qed.
+
 Print Assumptions C04_put_conserves.
 Print Assumptions C04_lru_put.
 Print Assumptions C04_slru_put.
@@ -53,3 +72,5 @@ Print Assumptions C04_twoq_put.
 Print Assumptions C04_arc_put.
 Print Assumptions C04_wtiny_put.
 Print Assumptions C04_remove_and_purge.
+Print Assumptions C04_heap_owned.
+Print Assumptions C04_heap_family_owned.
